@@ -44,23 +44,36 @@ def same(a, b):
     return a == b
 
 
-def check_image_only(name, kw, case, viol):
+def run_image_only(name, kw, case, ch):
     rs = np.random.RandomState(case['seed'] % 1000)
     shape = tuple(case['shape'])
-    ch = case['channels'] if name not in ('NPSNoise',) else None
     img = image_for(name, shape, ch, rs)
     mask = rs.randint(0, 5, shape).astype(np.int32)
     data = dict(image=img, mask=mask, masks=[mask.copy(), mask.copy() + 1], bboxes=[(1.0, 1.5, 0.0, 4.0, 5.5, 3.0, 'a')],
                 keypoints=[(2.5, 3.0, 1.0, 30.0, 2.0, 'k')], labels=['x'], dicom=copy.deepcopy(DICOM), mask2=mask.copy())
     ref = copy.deepcopy(data)
+    pipe = A.Compose([getattr(A, name)(p=1.0, **kw)], bbox_params=A.BboxParams('pascal_voc_3d'),
+                     keypoint_params=A.KeypointParams('xyzas', label_fields=['labels']),
+                     additional_targets={'mask2': 'mask'})
+    R.seed(case['seed'])
+    return pipe(**data), ref, img
+
+
+def check_image_only(name, kw, case, viol):
+    ch = case['channels'] if name not in ('NPSNoise',) else None
     try:
-        pipe = A.Compose([getattr(A, name)(p=1.0, **kw)], bbox_params=A.BboxParams('pascal_voc_3d'),
-                         keypoint_params=A.KeypointParams('xyzas', label_fields=['labels']),
-                         additional_targets={'mask2': 'mask'})
-        R.seed(case['seed'])
-        res = pipe(**data)
+        res, ref, img = run_image_only(name, kw, case, ch)
     except Exception as e:  # noqa
-        # whether a documented configuration runs at all is C08's question
+        # whether a documented configuration runs at all is C08's question -- but one that runs on the H x W x D
+        # volume and raises on the same volume with a channel axis does not "return the channel count of the input"
+        if ch:
+            try:
+                run_image_only(name, kw, case, None)
+            except Exception:  # noqa
+                return
+            viol.append({'site': 'C12:%s:raises-with-channels' % name, 'kind': 'image_only', 'name': name, 'kw': kw, 'case': case,
+                         'observed': '%s: %s' % (type(e).__name__, str(e)[:160]),
+                         'expected': 'an image with %d channel(s): the same configuration runs without the channel axis' % ch})
         return
     for k in ('mask', 'masks', 'bboxes', 'keypoints', 'labels', 'dicom', 'mask2'):
         if not same(res[k], ref[k]):
@@ -126,12 +139,14 @@ def run(seed=0, tier='quick', hints=None, broken=False):
     for name in IMAGE_ONLY:
         cfgs = configurations(name)
         rng.shuffle(cfgs)
-        for kw in cfgs[:per]:
-            case = {'shape': list(rng.sample([6, 8, 9, 10, 12], 3)), 'channels': rng.choice([None, None, 1, 3]),
-                    'seed': R.pick_seed(rng)}
+        for kw, chn in [(kw, chn) for kw in cfgs for chn in (None, 1, 3)] * (1 if tier == 'quick' else 4):
+            # every documented configuration x channel layouts HWD / HWD1 / HWD3; cubic volumes now and then (a
+            # broadcast that goes wrong raises on a non-cubic volume but silently changes the shape of a cubic one)
+            shape = list(rng.sample([6, 8, 9, 10, 12], 3)) if rng.random() < 0.7 else [rng.choice([6, 8])] * 3
+            case = {'shape': shape, 'channels': chn, 'seed': R.pick_seed(rng)}
             check_image_only(name, kw, case, viol)
             evals += 1
-            seen.add((name, repr(kw)))
+            seen.add((name, repr(kw), case['channels']))
     for _ in range(25 if tier == 'quick' else 800):
         case = {'shape': list(rng.sample([4, 5, 6, 8, 10], 3)), 'seed': R.pick_seed(rng),
                 'mask_fill': rng.choice([None, 7])}
